@@ -30,6 +30,7 @@ def run(prog, chk):
     wiring(prog, chk)
     location_choice(prog, chk)
     from props import geomalg
+    geomalg.check_sites(prog, chk, "C13")
     geomalg.check(prog, chk, "C13", floor=30)
 
 
